@@ -39,6 +39,12 @@ def plan(tier, seed):
                        'combos': combos[i::6]})
     shards.append({'name': 'seq', 'kind': 'seq', 'n': 250 if tier == 'quick' else 3000,
                    'seed': seed * 1000 + 6})
+    w4 = gen.exact_score_plan(random.Random(seed * 1000 + 45), c01.MEASURES4,
+                              80 if tier == 'quick' else 2500)
+    w4 = [(m, t, ('>', '>=', '>', '=')[i % 4]) for i, (m, t, _) in enumerate(w4)]
+    nw4 = 2 if tier == 'quick' else 8
+    for i in range(nw4):
+        shards.append({'name': 'w4_%d' % i, 'kind': 'w4', 'combos': w4[i::nw4], 'seed': seed * 1000 + 60 + i})
     S = 4 if tier == 'quick' else 5
     shards.append({'name': 'w2_a', 'kind': 'w2', 'S': S, 'part': 0, 'parts': 2})
     shards.append({'name': 'w2_b', 'kind': 'w2', 'S': S, 'part': 1, 'parts': 2})
@@ -145,6 +151,17 @@ def run_shard(shard, rec):
         rec.sample({'workload': 'NM', 'measure': m, 'threshold': t, 'N': shard['N'],
                     'note': 'per (a,b): one exactly qualifying pair and one pair one token short'},
                    limit=1)
+    elif kind == 'w4':
+        for i, (m, t, op) in enumerate(shard['combos']):
+            case = {'gen': 'w4', 'measure': m, 'threshold': t, 'comp_op': op,
+                    'seed': shard['seed'] * 100000 + i, 'n_jobs': 1 if i % 6 else 2}
+            st = run_case(case, rec, ssj)
+            rec.case(sig=('w4', m, t, op), nontrivial=bool(st and (st.get('scores_checked') or op == '>')))
+            rec.count('w4_exact_score_thresholds')
+        rec.sample({'workload': 'W4', 'note': 'thresholds that are the exact double-precision score of '
+                    'pairs of sets with up to 64 tokens (rewrite-sensitive points first); with > the '
+                    'boundary pairs must be absent, with >= and = present with that score',
+                    'last_case': case}, limit=1)
     elif kind == 'w2':
         S = shard['S']
         ths = gen.small_fraction_thresholds(S)
